@@ -74,12 +74,13 @@ Proof.
   unfold canon_of.
   assert (E1 : exists fss, mapM (fun o => match hget (c_heap c) o with
                            | Some f => match o_id f with Some i => do cf <- canon_fs s c f ;; Ok (i, cf) | None => Err EValue end
-                           | None => Err EAttribute end) (sofa_arrays c ++ map snd (sort_ids (w_all w))) = Ok fss).
-  { apply mapM_total. intros o Ho. apply in_app_or in Ho. destruct Ho as [Ho|Ho].
-    - specialize (Ha o Ho). specialize (Ta o Ho). unfold heap_typedb in Ta. destruct (hget (c_heap c) o) as [f|]; [|discriminate].
+                           | None => Err EAttribute end) (listed c w) = Ok fss).
+  { apply mapM_total. intros o Ho. unfold listed in Ho. apply in_app_or in Ho. destruct Ho as [Ho|Ho].
+    - apply omem_In in Ho. rewrite sofa_arrays_once_mem in Ho. apply omem_In in Ho. specialize (Ha o Ho). specialize (Ta o Ho). unfold heap_typedb in Ta. destruct (hget (c_heap c) o) as [f|]; [|discriminate].
       rewrite !andb_true_iff in Ha. destruct Ha as [[_ A] B]. destruct (o_id f) as [i|]; [|discriminate].
       destruct (canon_fs_total s c f A Ta) as (cf & ->). cbn [bind]. eexists. reflexivity.
-    - apply in_map_iff in Ho. destruct Ho as ([i o'] & <- & Hio). apply (proj1 (sort_ids_In _ _)) in Hio. cbn [snd].
+    - apply in_map_iff in Ho. destruct Ho as ([i o'] & <- & Hio). unfold unwritten in Hio. apply filter_In in Hio. destruct Hio as [Hio _].
+      apply (proj1 (sort_ids_In _ _)) in Hio. cbn [snd].
       destruct (Hfound i o' Hio) as (f & -> & -> & A & B). destruct (canon_fs_total s c f A B) as (cf & ->). cbn [bind]. eexists. reflexivity. }
   destruct E1 as (fss & ->). cbn [bind].
   assert (E2 : exists sofas, mapM (canon_sofa c) (c_views c) = Ok sofas).
@@ -109,6 +110,7 @@ Proof.
   destruct (save_json_parts L s mode c d c2 HL Hsave Hwf Hpos)
     as (w & types & outs & fss & Ev & Ef & sofas & Ew' & Hheap & Hviews & Hty & -> & Houts & Efss & HV & HF & Hfound & Harrs & Hn & Hi).
   destruct HV as (V0 & V1 & V2 & V3 & V4 & V5 & V6 & V7). destruct HF as (F0 & F1 & F2 & F3 & F4 & F5).
+  unfold tviews in V3, V4. rewrite tag_views_snd in V3, V4.
   assert (Hstabok : stab_ok c2 (map (fun cs => (cs_id cs, cs_text cs)) sofas)).
   { rewrite V4. intros n sf Hfs'. unfold find_sofa in Hfs'. rewrite Hviews in Hfs'.
     destruct (find _ (c_views c)) as [v|] eqn:Efi; [|discriminate]. cbn [option_map] in Hfs'. inversion Hfs'; subst sf.
@@ -117,12 +119,13 @@ Proof.
     - apply (in_map (fun v => (s_xid (v_sofa v), s_text (v_sofa v)))) in Hv. exact Hv. }
   destruct (V7 _ Hstabok) as (rs1 & _ & R2). destruct (F5 _ Hstabok) as (rs2 & _ & R4).
   assert (E : canon_json s c2 = Ok (mkCcas (sort_by cs_id sofas) (sort_by fst (rs1 ++ rs2)))).
-  { unfold canon_json. rewrite Ew'. cbn [bind]. unfold canon_of.
+  { unfold canon_json. rewrite Ew'. cbn [bind]. unfold canon_of, listed.
     change (fun o : oid => match hget (c_heap c2) o with
                            | Some f => match o_id f with Some i => do cf <- canon_fs s c2 f ;; Ok (i, cf) | None => Err EValue end
                            | None => Err EAttribute end) with (canon_item s c2).
-    assert (Hsa : sofa_arrays c2 = flat_map arr_of (c_views c)) by (unfold sofa_arrays; rewrite Hviews; reflexivity).
-    rewrite Hsa, mapM_app, R2, R4. cbn [bind]. rewrite Hviews, V3. reflexivity. }
+    assert (Hsa : sofa_arrays_once c2 = flat_map arr_of (tviews c)).
+    { rewrite tviews_arrays. unfold sofa_arrays_once, sofa_arrays. rewrite Hviews. reflexivity. }
+    fold (found_list c2 w). rewrite Hsa, mapM_app, R2, R4. cbn [bind]. rewrite Hviews, V3. reflexivity. }
   eexists. split; [exact E|]. rewrite Hden. exact E.
 Qed.
 
@@ -430,21 +433,22 @@ Qed.
 (* small facts about what the views loop and the canonical content say                                               *)
 (* ================================================================================================================ *)
 
-Lemma view_out_inv L s c v out : view_out L s c v = Ok out ->
-  exists mids arrs ms, member_ids (c_heap c) (v_members v) = Ok mids /\ arr_out L s c v = Ok arrs /\
-    enc_sofa L c (v_sofa v) = Ok ms /\ out = (arrs ++ [JObj ms], vjson v mids).
+Lemma view_out_inv L s c (p : list oid * cview) out : view_out L s c p = Ok out ->
+  exists mids arrs ms, member_ids (c_heap c) (v_members (snd p)) = Ok mids /\ arr_out L s c p = Ok arrs /\
+    enc_sofa L c (v_sofa (snd p)) = Ok ms /\ out = (arrs ++ [JObj ms], vjson (snd p) mids).
 Proof.
   unfold view_out, enc_view. intros H. apply bind_Ok in H as (jv & Ejv & H). apply bind_Ok in H as (arrs & Ea & H).
   apply bind_Ok in H as (ms & Es & H). apply bind_Ok in Ejv as (mids & Em & Ejv). inversion Ejv; subst jv. inversion H; subst out.
   exists mids, arrs, ms. repeat split; assumption.
 Qed.
-Lemma arr_out_inv L s c v arrs : arr_out L s c v = Ok arrs ->
-  (s_arr (v_sofa v) = None /\ arrs = []) \/
-  (exists o f m, s_arr (v_sofa v) = Some o /\ hget (c_heap c) o = Some f /\ enc_fs L s c f = Ok m /\ arrs = [JObj m]).
+Lemma arr_out_inv L s c (p : list oid * cview) arrs : arr_out L s c p = Ok arrs ->
+  (arr_of p = [] /\ arrs = []) \/
+  (exists o f m, s_arr (v_sofa (snd p)) = Some o /\ arr_of p = [o] /\ hget (c_heap c) o = Some f /\ enc_fs L s c f = Ok m /\ arrs = [JObj m]).
 Proof.
-  unfold arr_out. destruct (s_arr (v_sofa v)) as [o|]; [|intros [= <-]; left; split; reflexivity].
+  unfold arr_out, arr_of. destruct (s_arr (v_sofa (snd p))) as [o|]; [|intros [= <-]; left; split; reflexivity].
+  destruct (omem o (fst p)); [intros [= <-]; left; split; reflexivity|].
   destruct (hget (c_heap c) o) as [f|] eqn:Eg; [|discriminate]. intros H. apply bind_Ok in H as (m & Em & H). inversion H; subst arrs.
-  right. exists o, f, m. split; [reflexivity|]. split; [exact Eg|]. split; [exact Em|reflexivity].
+  right. exists o, f, m. split; [reflexivity|]. split; [reflexivity|]. split; [exact Eg|]. split; [exact Em|reflexivity].
 Qed.
 
 Lemma canon_sofa_fields c v cs : canon_sofa c v = Ok cs ->
@@ -550,10 +554,10 @@ Section DocOk.
   Hypothesis HL : lex_ok L.
   Hypothesis Ew : find_all_fs true s c2 = Ok w.
   Hypothesis Hheap : w_heap w = c_heap c2.
-  Hypothesis Houts : mapM (view_out L s c2) (c_views c2) = Ok outs.
-  Hypothesis Efss : mapM (fun io => do f <- fs_at c2 io ;; do m <- enc_fs L s c2 f ;; Ok (JObj m)) (sort_ids (w_all w)) = Ok fss.
-  Hypothesis HV : views_facts L s c2 (c_views c2) outs Ev sofas.
-  Hypothesis HF : found_facts L s c2 (sort_ids (w_all w)) fss Ef.
+  Hypothesis Houts : mapM (view_out L s c2) (tviews c2) = Ok outs.
+  Hypothesis Efss : mapM (fun io => do f <- fs_at c2 io ;; do m <- enc_fs L s c2 f ;; Ok (JObj m)) (found_list c2 w) = Ok fss.
+  Hypothesis HV : views_facts L s c2 (tviews c2) outs Ev sofas.
+  Hypothesis HF : found_facts L s c2 (found_list c2 w) fss Ef.
   Hypothesis Hfound : forall io, In io (w_all w) -> found_okP s c2 io.
   Hypothesis Harrs : arrs_okP s c2 (c_views c2).
   Hypothesis Hn : snodup (map s_name (map v_sofa (c_views c2))) = true.
@@ -577,23 +581,43 @@ Section DocOk.
 
   Lemma names_nodup : NoDup (map (fun v => s_name (v_sofa v)) (c_views c2)).
   Proof. apply snodup_NoDup. rewrite map_map in Hn. exact Hn. Qed.
+  (* the views, each with the arrays written before it *)
+  Lemma tv_snd : map snd (tviews c2) = c_views c2.
+  Proof. apply tag_views_snd. Qed.
+  Lemma tv_in p : In p (tviews c2) -> In (snd p) (c_views c2).
+  Proof. intros H. rewrite <- tv_snd. apply in_map. exact H. Qed.
+  Lemma tv_of v : In v (c_views c2) -> exists p, In p (tviews c2) /\ snd p = v.
+  Proof. intros H. rewrite <- tv_snd in H. apply in_map_iff in H. destruct H as (p & E & Hp). exists p. split; assumption. Qed.
+  (* the view in front of whose sofa a byte array is written *)
+  Lemma tv_array o : In o (sofa_arrays c2) -> exists p, In p (tviews c2) /\ arr_of p = [o].
+  Proof.
+    intros Ho. apply omem_In in Ho. rewrite <- sofa_arrays_once_mem in Ho. apply omem_In in Ho. rewrite <- tviews_arrays in Ho.
+    apply in_flat_map in Ho. destruct Ho as (p & Hp & Hop). exists p. split; [exact Hp|].
+    unfold arr_of in *. destruct (s_arr (v_sofa (snd p))) as [o'|]; [|destruct Hop]. destruct (omem o' (fst p)); [destruct Hop|].
+    destruct Hop as [<-|[]]. reflexivity.
+  Qed.
+  Lemma in_found_list io : In io (found_list c2 w) -> In io (w_all w).
+  Proof. unfold found_list, unwritten. intros H. apply filter_In in H. apply (proj1 (sort_ids_In _ _)). exact (proj1 H). Qed.
 
   (* ---- where the entries come from ---- *)
   Lemma Ef_char e : In e Ef -> exists i o f m, In (i, o) (w_all w) /\ hget (c_heap c2) o = Some f /\ o_id f = Some i /\
     obj_okb s c2 f = true /\ enc_fs L s c2 f = Ok m /\ e = (i, m).
   Proof.
     intros He. destruct HF as (F0 & F1 & _). pose proof Efss as Efss'. rewrite F1 in Efss'. pose proof (found_entries _ _ _ Efss' F0) as F.
-    destruct (Forall2_In_r _ _ _ _ F He) as (io & Hio & Hfst & Hg). apply (proj1 (sort_ids_In _ _)) in Hio.
+    destruct (Forall2_In_r _ _ _ _ F He) as (io & Hio & Hfst & Hg). apply in_found_list in Hio.
     apply bind_Ok in Hg as (f & Ef' & Hg). apply bind_Ok in Hg as (m & Em & Hg). inversion Hg as [Hm].
     unfold fs_at in Ef'. destruct (hget (c_heap c2) (snd io)) as [f'|] eqn:Eg; [|discriminate]. inversion Ef'; subst f'.
     destruct (Hfound io Hio) as (f'' & Eg' & Hok & Hid). rewrite Eg in Eg'. inversion Eg'; subst f''.
     destruct io as [i0 o]. destruct e as [ie me]. cbn [fst snd] in *. subst ie me. exists i0, o, f, m. repeat split; assumption.
   Qed.
-  Lemma Ef_has i o : In (i, o) (w_all w) -> exists f m, hget (c_heap c2) o = Some f /\ o_id f = Some i /\ obj_okb s c2 f = true /\
+  Lemma Ef_has i o : In (i, o) (w_all w) -> omem o (sofa_arrays c2) = false ->
+    exists f m, hget (c_heap c2) o = Some f /\ o_id f = Some i /\ obj_okb s c2 f = true /\
     enc_fs L s c2 f = Ok m /\ In (i, m) Ef.
   Proof.
-    intros Hio. destruct HF as (F0 & F1 & _). pose proof Efss as Efss'. rewrite F1 in Efss'. pose proof (found_entries _ _ _ Efss' F0) as F.
-    destruct (Forall2_In_l _ _ _ (i, o) F (proj2 (sort_ids_In _ _) Hio)) as (e & He & Hfst & Hg).
+    intros Hio Hno. destruct HF as (F0 & F1 & _). pose proof Efss as Efss'. rewrite F1 in Efss'. pose proof (found_entries _ _ _ Efss' F0) as F.
+    assert (Hfl : In (i, o) (found_list c2 w)).
+    { unfold found_list, unwritten. apply filter_In. split; [exact (proj2 (sort_ids_In _ _) Hio)|]. cbn [snd]. rewrite Hno. reflexivity. }
+    destruct (Forall2_In_l _ _ _ (i, o) F Hfl) as (e & He & Hfst & Hg).
     apply bind_Ok in Hg as (f & Ef' & Hg). apply bind_Ok in Hg as (m & Em & Hg). inversion Hg as [Hm].
     unfold fs_at in Ef'. cbn [snd] in Ef'. destruct (hget (c_heap c2) o) as [f'|] eqn:Eg; [|discriminate]. inversion Ef'; subst f'.
     destruct (Hfound (i, o) Hio) as (f'' & Eg' & Hok & Hid). cbn [fst snd] in *. rewrite Eg in Eg'. inversion Eg'; subst f''.
@@ -608,39 +632,46 @@ Section DocOk.
     intros He. destruct HV as (_ & V1 & V2 & _).
     assert (Hj : In (entry_json e) (List.concat (map fst outs))) by (rewrite V1; apply in_map; exact He).
     apply in_concat in Hj. destruct Hj as (js & Hjs & Hj). apply in_map_iff in Hjs. destruct Hjs as (out & <- & Hout).
-    destruct (mapM_In _ _ _ Houts out Hout) as (v & Hv & Eo). exists v. split; [exact Hv|].
+    destruct (mapM_In _ _ _ Houts out Hout) as (p & Hp & Eo). pose proof (tv_in p Hp) as Hv. exists (snd p). split; [exact Hv|].
     destruct (view_out_inv _ _ _ _ _ Eo) as (mids & arrs & ms & _ & Ea & Es & ->). cbn [fst] in Hj.
     rewrite Forall_forall in V2. specialize (V2 _ He). unfold id_first in V2. destruct e as [ie me]. cbn [fst snd entry_json] in *.
     apply in_app_or in Hj. destruct Hj as [Hj|[Hj|[]]].
-    - right. destruct (arr_out_inv _ _ _ _ _ Ea) as [[_ ->]|(o & f & m & Eo' & Eg & Em & ->)]; [destruct Hj|].
-      destruct Hj as [Hj|[]]. inversion Hj; subst me. destruct (Harrs v o Hv Eo') as (f' & i & Eg' & [Ht Hok] & Hid).
+    - right. destruct (arr_out_inv _ _ _ _ _ Ea) as [[_ ->]|(o & f & m & Eo' & _ & Eg & Em & ->)]; [destruct Hj|].
+      destruct Hj as [Hj|[]]. inversion Hj; subst me. destruct (Harrs (snd p) o Hv Eo') as (f' & i & Eg' & [Ht Hok] & Hid).
       rewrite Eg in Eg'. inversion Eg'; subst f'. destruct (enc_fs_head _ _ _ _ _ Em) as (rest & ->). cbn [alookup] in V2.
       rewrite String.eqb_refl in V2. unfold id_json in V2. rewrite Hid in V2. inversion V2; subst ie.
       exists o, f, i, ((K_ID, id_json f) :: (K_TYPE, JStr (o_type f)) :: rest). repeat split; assumption.
     - left. inversion Hj; subst me. destruct (enc_sofa_head _ _ _ _ Es) as [Hid _]. unfold id_first in Hid. cbn [fst snd] in Hid.
       rewrite Hid in V2. inversion V2; subst ie. exists ms. split; [exact Es|reflexivity].
   Qed.
+  (* what the loop writes for the tagged view p is among the entries *)
+  Lemma Ev_sub p out : In p (tviews c2) -> In out outs -> view_out L s c2 p = Ok out ->
+    forall j, In j (fst out) -> exists e, In e Ev /\ entry_json e = j.
+  Proof.
+    intros Hp Hout Eo j Hj. destruct HV as (_ & V1 & _). assert (Hc : In j (List.concat (map fst outs))).
+    { apply in_concat. exists (fst out). split; [apply in_map; exact Hout|exact Hj]. }
+    rewrite V1 in Hc. apply in_map_iff in Hc. destruct Hc as (e & Ee & He). exists e. split; assumption.
+  Qed.
   Lemma Ev_has v : In v (c_views c2) ->
     (exists ms, enc_sofa L c2 (v_sofa v) = Ok ms /\ In (s_xid (v_sofa v), ms) Ev) /\
     (forall o, s_arr (v_sofa v) = Some o -> exists f i m, hget (c_heap c2) o = Some f /\ o_id f = Some i /\
        String.eqb (o_type f) T_BYTE_ARRAY = true /\ obj_okb s c2 f = true /\ enc_fs L s c2 f = Ok m /\ In (i, m) Ev).
   Proof.
-    intros Hv. destruct HV as (_ & V1 & V2 & _). destruct (mapM_In_l _ _ _ Houts v Hv) as (out & Hout & Eo).
-    destruct (view_out_inv _ _ _ _ _ Eo) as (mids & arrs & ms & _ & Ea & Es & ->).
-    assert (Hsub : forall j, In j (arrs ++ [JObj ms]) -> exists e, In e Ev /\ entry_json e = j).
-    { intros j Hj. assert (Hc : In j (List.concat (map fst outs))).
-      { apply in_concat. exists (arrs ++ [JObj ms]). split; [|exact Hj].
-        change (arrs ++ [JObj ms]) with (fst (arrs ++ [JObj ms], vjson v mids)). apply in_map. exact Hout. }
-      rewrite V1 in Hc. apply in_map_iff in Hc. destruct Hc as (e & Ee & He). exists e. split; assumption. }
-    rewrite Forall_forall in V2. split.
-    - exists ms. split; [exact Es|]. destruct (Hsub (JObj ms)) as ([ie me] & He & Ee); [apply in_or_app; right; left; reflexivity|].
+    intros Hv. pose proof HV as (_ & _ & V2 & _). rewrite Forall_forall in V2. split.
+    - destruct (tv_of v Hv) as (p & Hp & <-). destruct (mapM_In_l _ _ _ Houts p Hp) as (out & Hout & Eo).
+      destruct (view_out_inv _ _ _ _ _ Eo) as (mids & arrs & ms & _ & Ea & Es & Eout).
+      exists ms. split; [exact Es|]. destruct (Ev_sub p out Hp Hout Eo (JObj ms)) as ([ie me] & He & Ee); [rewrite Eout; apply in_or_app; right; left; reflexivity|].
       cbn [entry_json snd] in Ee. inversion Ee; subst me. specialize (V2 _ He). unfold id_first in V2. cbn [fst snd] in V2.
       destruct (enc_sofa_head _ _ _ _ Es) as [Hid _]. unfold id_first in Hid. cbn [fst snd] in Hid. rewrite Hid in V2. inversion V2; subst ie. exact He.
     - intros o Eo'. destruct (Harrs v o Hv Eo') as (f & i & Eg & [Ht Hok] & Hid).
-      destruct (arr_out_inv _ _ _ _ _ Ea) as [[E _]|(o' & f' & m & Eo'' & Eg' & Em & ->)]; [congruence|].
-      rewrite Eo' in Eo''. inversion Eo''; subst o'. rewrite Eg in Eg'. inversion Eg'; subst f'.
+      (* the array is written in front of the first sofa that refers to it *)
+      assert (Ho : In o (sofa_arrays c2)) by (unfold sofa_arrays; apply in_flat_map; exists v; split; [exact Hv|rewrite Eo'; left; reflexivity]).
+      destruct (tv_array o Ho) as (p & Hp & Hao). destruct (mapM_In_l _ _ _ Houts p Hp) as (out & Hout & Eo).
+      destruct (view_out_inv _ _ _ _ _ Eo) as (mids & arrs & ms & _ & Ea & Es & Eout).
+      destruct (arr_out_inv _ _ _ _ _ Ea) as [[E _]|(o' & f' & m & _ & Hao' & Eg' & Em & Earrs)]; [congruence|].
+      rewrite Hao in Hao'. inversion Hao'; subst o'. rewrite Eg in Eg'. inversion Eg'; subst f'.
       exists f, i, m. repeat split; try assumption.
-      destruct (Hsub (JObj m)) as ([ie me] & He & Ee); [apply in_or_app; left; left; reflexivity|].
+      destruct (Ev_sub p out Hp Hout Eo (JObj m)) as ([ie me] & He & Ee); [rewrite Eout, Earrs; left; reflexivity|].
       cbn [entry_json snd] in Ee. inversion Ee; subst me. specialize (V2 _ He). unfold id_first in V2. cbn [fst snd] in V2.
       destruct (enc_fs_head _ _ _ _ _ Em) as (rest & Em'). rewrite Em' in V2. cbn [alookup] in V2. rewrite String.eqb_refl in V2.
       unfold id_json in V2. rewrite Hid in V2. inversion V2; subst ie. exact He.
@@ -658,10 +689,26 @@ Section DocOk.
     intros He. apply filter_In. split; [apply in_or_app; right; exact He|].
     destruct (Ef_char e He) as (i & o & f & m & _ & _ & _ & Hok & Em & ->). unfold not_sofa. rewrite (written_not_sofa f i m Hok Em). reflexivity.
   Qed.
+  (* every structure found has its entry: written by the traversal loop, or -- a sofa byte array -- by the views loop *)
+  Lemma found_has i o : In (i, o) (w_all w) -> exists f m, hget (c_heap c2) o = Some f /\ o_id f = Some i /\ obj_okb s c2 f = true /\
+    enc_fs L s c2 f = Ok m /\ In (i, m) fes.
+  Proof.
+    intros Hio. destruct (omem o (sofa_arrays c2)) eqn:Eo.
+    - apply omem_In in Eo. unfold sofa_arrays in Eo. apply in_flat_map in Eo. destruct Eo as (v & Hv & Hov).
+      destruct (s_arr (v_sofa v)) as [o'|] eqn:Ea; [|destruct Hov]. destruct Hov as [->|[]].
+      destruct (proj2 (Ev_has v Hv) o Ea) as (f & i' & m & Eg & Hid & _ & Hok & Em & He).
+      destruct (Hfound (i, o) Hio) as (f' & Eg' & _ & Hid'). cbn [fst snd] in Eg', Hid'. rewrite Eg in Eg'. inversion Eg'; subst f'.
+      rewrite Hid in Hid'. inversion Hid'; subst i'. exists f, m. repeat split; try assumption.
+      apply filter_In. split; [apply in_or_app; left; exact He|]. unfold not_sofa.
+      destruct (enc_fs_head _ _ _ _ _ Em) as (rest & ->). unfold is_sofa_entry. rewrite e_type_written.
+      unfold obj_okb in Hok. apply andb_true_iff in Hok. destruct Hok as [Ht _]. unfold tname_okb in Ht.
+      apply andb_true_iff in Ht. destruct Ht as [Ht _]. exact Ht.
+    - destruct (Ef_has i o Hio Eo) as (f & m & A & B & C & D & He). exists f, m. repeat split; try assumption. apply In_fes_Ef. exact He.
+  Qed.
   Lemma found_in_fes i : In i (map fst (w_all w)) -> In i (map fst fes).
   Proof.
-    intros Hin. apply in_map_iff in Hin. destruct Hin as ([i' o] & <- & Hio). destruct (Ef_has i' o Hio) as (f & m & _ & _ & _ & _ & He).
-    cbn [fst]. change i' with (fst (i', m)). apply in_map. apply In_fes_Ef. exact He.
+    intros Hin. apply in_map_iff in Hin. destruct Hin as ([i' o] & <- & Hio). destruct (found_has i' o Hio) as (f & m & _ & _ & _ & _ & He).
+    cbn [fst]. change i' with (fst (i', m)). apply in_map. exact He.
   Qed.
   Lemma sofa_in_ses v : In v (c_views c2) -> In (s_xid (v_sofa v)) (map fst ses).
   Proof.
@@ -746,7 +793,7 @@ Section DocOk.
   (* ---- the sofas ---- *)
   Lemma views_lookup : Forall2 (fun v out => alookup (s_name (v_sofa v)) views = Some (snd (snd out))) (c_views c2) outs.
   Proof.
-    destruct HV as (_ & _ & _ & _ & _ & V5 & _).
+    destruct HV as (_ & _ & _ & _ & _ & V5 & _). rewrite tv_snd in V5.
     assert (Hnames : NoDup (map fst views)) by (rewrite V5; exact names_nodup).
     assert (G : forall vs os, map fst (map snd os) = map (fun v => s_name (v_sofa v)) vs -> (forall o, In o os -> In o outs) ->
                 Forall2 (fun v out => alookup (s_name (v_sofa v)) views = Some (snd (snd out))) vs os).
@@ -758,36 +805,38 @@ Section DocOk.
   Qed.
   Lemma sofas_read : mapM (den_sofa L views) ses = Ok sofas.
   Proof.
-    destruct HV as (_ & _ & _ & _ & _ & _ & V6 & _). destruct HF as (_ & _ & _ & F3 & _).
+    destruct HV as (_ & _ & _ & _ & _ & _ & V6 & _). destruct HF as (_ & _ & _ & F3 & _). rewrite tv_snd in V6.
     rewrite filter_app, F3, app_nil_r. exact (V6 views views_lookup).
   Qed.
   Lemma sofas_of_views cs : In cs sofas -> exists v, In v (c_views c2) /\ canon_sofa c2 v = Ok cs.
-  Proof. destruct HV as (_ & _ & _ & V3 & _). intros H. exact (mapM_In _ _ _ V3 cs H). Qed.
+  Proof. destruct HV as (_ & _ & _ & V3 & _). rewrite tv_snd in V3. intros H. exact (mapM_In _ _ _ V3 cs H). Qed.
 
   Lemma ids_positive : forallb (fun i => 0 <? i) (map fst es) = true.
   Proof.
     destruct HV as (V0 & _). destruct HF as (F0 & _). pose proof Tpos as T. rewrite forallb_forall in T. apply forallb_forall. intros i Hi'.
     apply T. unfold doc_ids. rewrite map_app in Hi'. apply in_app_or in Hi'. destruct Hi' as [Hi'|Hi'].
-    - assert (Hi'' : In i (flat_map (fun v => arr_ids c2 v ++ [s_xid (v_sofa v)]) (c_views c2))) by (rewrite <- V0; exact Hi').
-      clear Hi'. rename Hi'' into Hi'. apply in_flat_map in Hi'. destruct Hi' as (v & Hv & Hi'). apply in_app_or in Hi'. destruct Hi' as [Hi'|[<-|[]]].
-      + apply in_or_app. right. apply in_or_app. right. unfold sofa_arrays. rewrite arrays_ids_flat. apply in_flat_map. exists v. split; assumption.
+    - assert (Hi'' : In i (flat_map (fun p => arr_ids c2 p ++ [s_xid (v_sofa (snd p))]) (tviews c2))) by (rewrite <- V0; exact Hi').
+      clear Hi'. rename Hi'' into Hi'. apply in_flat_map in Hi'. destruct Hi' as (p & Hp & Hi'). pose proof (tv_in p Hp) as Hv.
+      apply in_app_or in Hi'. destruct Hi' as [Hi'|[<-|[]]].
+      + apply in_or_app. right. apply in_or_app. right. unfold arr_ids in Hi'. apply in_flat_map in Hi'. destruct Hi' as (o & Ho & Hio).
+        apply in_flat_map. exists o. split; [|exact Hio]. unfold sofa_arrays. apply in_flat_map. exists (snd p). split; [exact Hv|].
+        unfold arr_of in Ho. destruct (s_arr (v_sofa (snd p))) as [o'|]; [|destruct Ho]. destruct (omem o' (fst p)); [destruct Ho|exact Ho].
       + apply in_or_app. left. rewrite map_map. apply (in_map (fun v => s_xid (v_sofa v))). exact Hv.
-    - assert (Hi'' : In i (map fst (sort_ids (w_all w)))) by (rewrite <- F0; exact Hi'). clear Hi'. rename Hi'' into Hi'.
-      apply in_or_app. right. apply in_or_app. left.
-      eapply Permutation_in; [apply Permutation_map, sort_ids_is_perm|exact Hi'].
+    - assert (Hi'' : In i (map fst (found_list c2 w))) by (rewrite <- F0; exact Hi'). clear Hi'. rename Hi'' into Hi'.
+      apply in_or_app. right. apply in_or_app. left. apply in_map_iff in Hi'. destruct Hi' as (io & <- & Hio). apply in_map. exact (in_found_list io Hio).
   Qed.
   Lemma view_names_distinct : snodup (map fst views) = true.
-  Proof. destruct HV as (_ & _ & _ & _ & _ & V5 & _). rewrite V5. pose proof Hn as H. rewrite map_map in H. exact H. Qed.
+  Proof. destruct HV as (_ & _ & _ & _ & _ & V5 & _). rewrite V5, tv_snd. pose proof Hn as H. rewrite map_map in H. exact H. Qed.
   Lemma sofa_names_distinct : snodup (map cs_name sofas) = true.
   Proof.
-    destruct HV as (_ & _ & _ & V3 & _).
+    destruct HV as (_ & _ & _ & V3 & _). rewrite tv_snd in V3.
     rewrite (mapM_keys (canon_sofa c2) (fun v => s_name (v_sofa v)) cs_name _
                (fun a b H => proj1 (proj2 (proj2 (canon_sofa_fields c2 a b H)))) sofas V3).
     pose proof Hn as H. rewrite map_map in H. exact H.
   Qed.
   Lemma sofa_nums_distinct : znodup (map cs_num sofas) = true.
   Proof.
-    destruct HV as (_ & _ & _ & V3 & _).
+    destruct HV as (_ & _ & _ & V3 & _). rewrite tv_snd in V3.
     rewrite (mapM_keys (canon_sofa c2) (fun v => s_num (v_sofa v)) cs_num _
                (fun a b H => proj1 (proj2 (canon_sofa_fields c2 a b H))) sofas V3).
     pose proof Tnum as H. rewrite map_map in H. exact H.
@@ -816,7 +865,7 @@ Section DocOk.
   Qed.
   Lemma sofas_have_views : forallb (fun cs => match alookup (cs_name cs) views with Some _ => true | None => false end) sofas = true.
   Proof.
-    destruct HV as (_ & _ & _ & _ & _ & V5 & _). apply forallb_forall. intros cs Hcs. destruct (sofas_of_views cs Hcs) as (v & Hv & Ec).
+    destruct HV as (_ & _ & _ & _ & _ & V5 & _). rewrite tv_snd in V5. apply forallb_forall. intros cs Hcs. destruct (sofas_of_views cs Hcs) as (v & Hv & Ec).
     destruct (canon_sofa_fields _ _ _ Ec) as (_ & _ & En & _). destruct (alookup_in_keys (cs_name cs) views) as (x & ->); [|reflexivity].
     rewrite V5, En. apply (in_map (fun v => s_name (v_sofa v))). exact Hv.
   Qed.
@@ -833,7 +882,8 @@ Section DocOk.
   Lemma views_ok : forallb (view_ok s fes sofas) views = true.
   Proof.
     apply forallb_forall. intros kv Hkv. apply in_map_iff in Hkv. destruct Hkv as (out & <- & Hout).
-    destruct (mapM_In _ _ _ Houts out Hout) as (v & Hv & Eo). destruct (view_out_inv _ _ _ _ _ Eo) as (mids & arrs & ms & Emids & _ & _ & ->).
+    destruct (mapM_In _ _ _ Houts out Hout) as (p & Hp & Eo). destruct (view_out_inv _ _ _ _ _ Eo) as (mids & arrs & ms & Emids & _ & _ & ->).
+    pose proof (tv_in p Hp) as Hv. set (v := snd p) in *.
     cbn [snd]. unfold view_ok, vjson. cbn [snd fst jget alookup].
     change (String.eqb K_SOFA K_SOFA) with true. change (String.eqb K_MEMBERS K_SOFA) with false.
     change (String.eqb K_MEMBERS K_MEMBERS) with true. cbv iota. rewrite jints_map_JInt.
@@ -842,7 +892,7 @@ Section DocOk.
       repeat split; try assumption. exact (member_found v o f i Hv Ho Hg Hio). }
     pose proof Tmem as T. rewrite forallb_forall in T. specialize (T v Hv). apply andb_true_iff in T. destruct T as [Tnd Tso].
     repeat (apply andb_true_iff; split).
-    - destruct HV as (_ & _ & _ & V3 & _). destruct (mapM_In_l _ _ _ V3 v Hv) as (cs & Hcs & Ec).
+    - destruct HV as (_ & _ & _ & V3 & _). rewrite tv_snd in V3. destruct (mapM_In_l _ _ _ V3 v Hv) as (cs & Hcs & Ec).
       destruct (canon_sofa_fields _ _ _ Ec) as (Ei & _ & En & _). apply existsb_exists. exists cs. split; [exact Hcs|].
       rewrite Ei, En, Z.eqb_refl, String.eqb_refl. reflexivity.
     - apply forallb_forall. intros j Hj. apply in_map_iff in Hj. destruct Hj as (i & <- & Hi'). destruct (Hmem i Hi') as (o & f & _ & _ & _ & Hin).
@@ -857,8 +907,8 @@ Section DocOk.
       destruct (find_all_each_once _ _ _ _ _ Ew') as [Nid _].
       exact (NoDup_fst_inj (w_all w) b a a' Nid (member_found v a fa b Hv Ha Ega Eia) (member_found v a' fa' b Hv Ha' Ega' Eia')).
     - apply forallb_forall. intros i Hi'. destruct (Hmem i Hi') as (o & f & Ho & Hg & Hid & Hin).
-      destruct (Ef_has i o Hin) as (f' & m & Hg' & _ & Hok & Em & He). rewrite Hg in Hg'. inversion Hg'; subst f'.
-      pose proof (find_by_id fes (i, m) i fes_nodup (In_fes_Ef _ He) eq_refl) as Hfind. unfold member_sofa_ok.
+      destruct (found_has i o Hin) as (f' & m & Hg' & _ & Hok & Em & He). rewrite Hg in Hg'. inversion Hg'; subst f'.
+      pose proof (find_by_id fes (i, m) i fes_nodup He eq_refl) as Hfind. unfold member_sofa_ok.
       match goal with |- context [find ?g ?l] => replace (find g l) with (Some ((i, m) : entry)) by (symmetry; exact Hfind) end.
       destruct (enc_fs_head _ _ _ _ _ Em) as (rest & Em'). rewrite Em' at 1. rewrite e_type_written.
       assert (Htn : norm_tname (o_type f) = o_type f).
@@ -909,7 +959,8 @@ Proof.
   pose proof (json_ids_distinct L s mode c d c2 HL Hsave Hwf Hpos Hid) as Hdd.
   destruct (save_json_entries L s mode c d c2 HL Hsave Hwf Hpos)
     as (w & outs & fss & Ev & Ef & sofas & Efs & Evs & Ew & Hheap & Hviews & Houts & Efss & HV & HF & Hfound & Harrs).
-  rewrite <- Hviews in Houts, HV, Harrs.
+  assert (Htv : tviews c = tviews c2) by (unfold tviews; rewrite Hviews; reflexivity).
+  rewrite Htv in Houts, HV. rewrite <- Hviews in Harrs.
   unfold wf_jsonb in Hwf. rewrite Ew in Hwf. rewrite !andb_true_iff in Hwf. destruct Hwf as ((((Hn & Hi) & _) & _) & _).
   unfold refs_wfb in Hrw. rewrite Ew in Hrw. rewrite !andb_true_iff in Hrw. destruct Hrw as [[Hnonull Harrsch] Hsofaslot].
   unfold typed_jsonb in Hty. rewrite Ew in Hty. rewrite !andb_true_iff in Hty. destruct Hty as ((((Tpos & Tnum) & Tmem) & Tfound) & Tarr).
